@@ -239,8 +239,12 @@ func genLockedfile(g *fact.Gen) {
 			return false, false, "func closeFile not found"
 		}
 		u, c := findCall(g, closeFile.Body, "filelock.Unlock"), findCall(g, closeFile.Body, "f.Close")
-		if u == nil || c == nil {
-			return false, false, "Unlock or Close call not found in closeFile"
+		if c == nil {
+			return false, false, "Close call not found in closeFile"
+		}
+		if u == nil {
+			// closeFile closes without unlocking first
+			return false, true, ""
 		}
 		return u.Pos() < c.Pos(), true, ""
 	})
